@@ -17,6 +17,9 @@ DocOf(e) == [r \in RSet |-> [e.d[r] EXCEPT !.flags = SeqSet(@)]]
 ObsOK(o) ==
   /\ \A r \in RSet :
        /\ o.relays[r].known = view'[r].known
+       \* the mark that tells a relay of the document from one made up for a lookup (IRouterContainer): set exactly for the former,
+       \* also for a relay that was looked up - and got a stand-in - before the document that lists it arrived
+       /\ o.relays[r].cons = view'[r].known
        /\ view'[r].known =>
             /\ o.relays[r].nick = view'[r].nick /\ o.relays[r].ip = view'[r].ip
             /\ SeqSet(o.relays[r].flags) = view'[r].flags /\ o.relays[r].v6 = view'[r].v6 /\ o.relays[r].bw = view'[r].bw
